@@ -66,10 +66,102 @@ static std::string chk(const mj::Value& t, const PolarGrid& G, double unit, doub
     return "";
 }
 
+// "param" mode: the PARAMETRIC constructor is a third implementation of the same set-up.  Every query of the grid it returns
+// must agree with the grid's own coordinates and with a twin built by the vector constructor (the path bound to the TLC tables).
+static std::string chkParam(const PolarGrid& P, const PolarGrid& V)
+{
+    auto S = [](int a) { return std::to_string(a); };
+    const int nr = P.nr(), nt = P.ntheta();
+    if (V.nr() != nr || V.ntheta() != nt)
+        return "twin has other sizes";
+    if (P.numberSmootherCircles() != V.numberSmootherCircles() || P.lengthSmootherRadial() != V.lengthSmootherRadial() ||
+        P.numberOfNodes() != nr * nt)
+        return "numberSmootherCircles " + S(P.numberSmootherCircles()) + " twin " + S(V.numberSmootherCircles());
+    for (int i = 0; i + 1 < nr; i++) {
+        if (!(P.radius(i) < P.radius(i + 1)))
+            return "radii not increasing at " + S(i);
+        if (fabs(P.radialSpacing(i) - (P.radius(i + 1) - P.radius(i))) > 1e-12 || P.radialSpacing(i) != V.radialSpacing(i))
+            return "radialSpacing(" + S(i) + ")=" + std::to_string(P.radialSpacing(i)) + " but radius(i+1)-radius(i)=" +
+                   std::to_string(P.radius(i + 1) - P.radius(i));
+    }
+    for (int j = -nt; j < 2 * nt; j++) {
+        int w = P.wrapThetaIndex(j);
+        if (w < 0 || w >= nt || w != V.wrapThetaIndex(j))
+            return "wrapThetaIndex(" + S(j) + ")";
+        double next = w + 1 < nt ? P.theta(w + 1) : 2 * M_PI;
+        if (fabs(P.angularSpacing(j) - (next - P.theta(w))) > 1e-12 || P.angularSpacing(j) != V.angularSpacing(j))
+            return "angularSpacing(" + S(j) + ")=" + std::to_string(P.angularSpacing(j)) + " but the angles differ by " + std::to_string(next - P.theta(w));
+    }
+    std::vector<char> seen(nr * nt, 0);
+    for (int ir = 0; ir < nr; ir++)
+        for (int it = 0; it < nt; it++) {
+            int n = P.index(ir, it);
+            if (n < 0 || n >= nr * nt || seen[n] || n != V.index(ir, it))
+                return "index(" + S(ir) + "," + S(it) + ")=" + S(n) + " is not a bijection / differs from the twin";
+            seen[n] = 1;
+            MultiIndex m = P.multiIndex(n);
+            if (m[0] != ir || m[1] != it)
+                return "multiIndex(index) at (" + S(ir) + "," + S(it) + ")";
+            std::array<std::pair<double, double>, space_dimension> d, e;
+            P.adjacentNeighborDistances(m, d);
+            V.adjacentNeighborDistances(m, e);
+            double hin = ir > 0 ? P.radius(ir) - P.radius(ir - 1) : 0.0, hout = ir < nr - 1 ? P.radius(ir + 1) - P.radius(ir) : 0.0;
+            if (fabs(d[0].first - hin) > 1e-12 || fabs(d[0].second - hout) > 1e-12 || d[0] != e[0] || d[1] != e[1])
+                return "adjacentNeighborDistances at (" + S(ir) + "," + S(it) + ")";
+            Point p = P.polarCoordinates(m);
+            if (p[0] != P.radius(ir) || p[1] != P.theta(it))
+                return "polarCoordinates at (" + S(ir) + "," + S(it) + ")";
+        }
+    return "";
+}
+static int paramMode(std::ifstream& in)
+{
+    std::string line;
+    long n = 0, nfail = 0;
+    while (std::getline(in, line)) {
+        if (line.empty())
+            continue;
+        n++;
+        mj::Value t = mj::parse(line);
+        std::string fail;
+        try {
+            std::optional<double> split = t["split"].dbl() < -0.5 ? std::nullopt : std::optional<double>(t["split"].dbl());
+            PolarGrid P(t["R0"].dbl(), t["R"].dbl(), (int)t["nrexp"].num(), (int)t["ntexp"].num(), t["rr"].dbl(), (int)t["a"].num(), (int)t["d"].num(), split);
+            std::vector<double> rad(P.nr()), ang(P.ntheta() + 1);
+            for (int i = 0; i < P.nr(); i++)
+                rad[i] = P.radius(i);
+            for (int j = 0; j < P.ntheta(); j++)
+                ang[j] = P.theta(j);
+            ang[P.ntheta()] = 2 * M_PI;
+            PolarGrid V(rad, ang, split);
+            fail = chkParam(P, V);
+            if (fail.empty() && P.nr() >= 5 && P.ntheta() >= 4) {
+                PolarGrid CP = coarseningGrid(P), CV = coarseningGrid(V);
+                fail = chkParam(CP, CV);
+                if (!fail.empty())
+                    fail = "coarsened: " + fail;
+            }
+        }
+        catch (const std::exception& e) {
+            fail = std::string("constructor threw: ") + e.what();
+        }
+        if (!fail.empty()) {
+            nfail++;
+            printf("{\"fail\":true,\"param\":%s,\"what\":\"%s\"}\n", line.c_str(), fail.c_str());
+        }
+    }
+    printf("{\"summary\":true,\"param_grids\":%ld,\"failed\":%ld}\n", n, nfail);
+    return 0;
+}
+
 int main(int argc, char** argv)
 {
     if (argc < 2)
         return 2;
+    if (argc > 2 && std::string(argv[2]) == "param") {
+        std::ifstream pin(argv[1]);
+        return paramMode(pin);
+    }
     std::ifstream in(argv[1]);
     std::string line;
     long n = 0, nfail = 0, ngrids = 0, ncache = 0;
